@@ -1,5 +1,8 @@
 import CookModel.Lemmas.TextLaws
 import CookModel.Lemmas.LexLaws
+import CookModel.Lemmas.SimBlocks
+import CookModel.Lemmas.SimEvents
+import CookModel.Lemmas.TrailingSpace
 /-
   C17  Line endings, comments and blank space do not change the recipe.
 
@@ -48,6 +51,49 @@ theorem C17_newline_is_space (off off' : Nat) (xs ys : List Tok) (n n' : Tok)
   have e2 : vis n' = [' '] := by simp [vis, hn', h2]
   simp [e1, e2]
 
+/-- **Trailing white space at the end of a run is invisible after trimming.**  Appending a
+    whitespace token (any Unicode white space: blanks, tabs, U+00A0 …) to a token run changes
+    neither `Text::text_trimmed()` nor the outer `trim()` nor `is_text_empty()` of the assembled
+    text.  The runs this applies to end at the end of a line: a metadata value (`consume_rest` of a
+    `>>` line), a section name before the closing `=`/end of line, a component name or note, the
+    last line of a step or text block; so `>> k: v` and `>> k: v   ` give the same value, and a name
+    that was blank stays blank (same warnings). -/
+theorem C17_trailing_space_trimmed (cs : CharSpec) (off : Nat) (xs : List Tok) (w : Tok) (hw : w.kind = .ws)
+    (hu : w.text.all cs.uws = true) :
+    (buildText off (xs ++ [w])).trimmed cs = (buildText off xs).trimmed cs ∧
+    (buildText off (xs ++ [w])).outerTrimmed cs = (buildText off xs).outerTrimmed cs ∧
+    (buildText off (xs ++ [w])).isTextEmpty cs = (buildText off xs).isTextEmpty cs :=
+  ⟨(tsp_buildText_snoc_ws cs off xs w hw hu).2.1, (tsp_buildText_snoc_ws cs off xs w hw hu).1,
+   (tsp_buildText_snoc_ws cs off xs w hw hu).2.2⟩
+
+/-- the lexer merges added blanks into an existing trailing whitespace token: making the last
+    whitespace token of a run longer (or different) changes nothing after trimming either -/
+theorem C17_trailing_space_widen (cs : CharSpec) (off : Nat) (xs : List Tok) (w w' : Tok)
+    (hw : w.kind = .ws) (hw' : w'.kind = .ws) (hu : w.text.all cs.uws = true) (hu' : w'.text.all cs.uws = true) :
+    (buildText off (xs ++ [w'])).trimmed cs = (buildText off (xs ++ [w])).trimmed cs ∧
+    (buildText off (xs ++ [w'])).isTextEmpty cs = (buildText off (xs ++ [w])).isTextEmpty cs := by
+  obtain ⟨a1, _, a3⟩ := C17_trailing_space_trimmed cs off xs w hw hu
+  obtain ⟨b1, _, b3⟩ := C17_trailing_space_trimmed cs off xs w' hw' hu'
+  exact ⟨b1.trans a1.symm, b3.trans a3.symm⟩
+
+/-- **Blanks in front of a line break inside a step.**  In a multi-line text run, ASCII blanks at
+    the end of a line (a whitespace token of blanks directly before a newline token) do not change
+    `text_trimmed()`: the line break reads as one blank and `text_trimmed` collapses runs of
+    blanks.  Offsets of all later tokens shift, hence `off`/`off'` and the statement for arbitrary
+    token positions.  Needs only that the plain blank is white space for `trim`.  (Tabs are NOT
+    collapsed by `text_trimmed`, so the statement is about U+0020 only, as in the code.) -/
+theorem C17_trailing_space_before_newline (cs : CharSpec) (hsp : cs.uws ' ' = true) (off off' : Nat)
+    (xs ys : List Tok) (w nl : Tok) (hw : w.kind = .ws) (hS : ∀ c ∈ w.text, c = ' ')
+    (hn : nl.kind = .newline) (hne : nl.text ≠ []) :
+    (buildText off' (xs ++ [w, nl] ++ ys)).trimmed cs = (buildText off (xs ++ [nl] ++ ys)).trimmed cs :=
+  tsp_buildText_ws_before_newline cs hsp off off' xs ys w nl hw hS hn hne
+
+/-- the character-level law behind it: `text_trimmed` of `a␣␣b` and of `a␣b` agree, wherever the
+    blanks are (also at the ends, where `trim` removes them) -/
+theorem C17_text_trimmed_collapses (ws : Char → Bool) (hsp : ws ' ' = true) (A S B : List Char)
+    (hS : ∀ c ∈ S, c = ' ') : trimmedOf ws (A ++ S ++ ' ' :: B) = trimmedOf ws (A ++ ' ' :: B) :=
+  tsp_trimmedOf_blanks ws hsp A S B hS
+
 /-- The CRLF law of the lexer (`crlf_kinds`).  `crlf s` replaces every `'\n'` of `s` that is not
     already preceded by `'\r'` with `"\r\n"`.  For every character table in which CR and LF are
     neither lexer whitespace nor word characters (`CrlfSpec`, true of the real tables) and every
@@ -87,6 +133,91 @@ theorem C17_crlf_visible_text (cs : CharSpec) (hcs : CrlfSpec cs) (s : List Char
   have h := lex_crlf_run_vis cs hcs s hs i j
   exact ⟨h, by rw [buildText_text, buildText_text, h]⟩
 
+/-- **CRLF at block level.**  Under the conditions of `C17_crlf` (no backslash in the input) the
+    block splitter (`PullParser::next_block`) cuts the token stream of the CRLF-converted input
+    into the same number of blocks as the stream of the input, and corresponding blocks have the
+    same number of tokens, related one to one by `CrlfTok`: same kind, same text except for
+    newline tokens (`"\n"` → `"\r\n"`), line comments (may get the CR appended) and block comments
+    (converted inside).  `LRel R l m` : `l` and `m` have the same length and `R l[i] m[i]` for all `i`.
+    So blank-line detection, single-line (`>>`, `=`) detection, multi-line continuation and the
+    trimming of trailing newlines all decide identically; only byte offsets differ. -/
+theorem C17_crlf_blocks (cs : CharSpec) (hcs : CrlfSpec cs) (s : List Char) (hs : CrlfSafe s) (off off' : Nat) :
+    LRel (LRel CrlfTok)
+      (allBlocks ((lexFrom cs off' (crlf s)).length + 1) (lexFrom cs off' (crlf s)))
+      (allBlocks ((lexFrom cs off s).length + 1) (lexFrom cs off s)) := crlf_blocks cs hcs s hs off off'
+
+/-- the same in the vocabulary of `C17_crlf`: the lists of blocks are equal after erasing offsets
+    and the texts of newline/comment tokens (`tokAbs`) -/
+theorem C17_crlf_blocks_abs (cs : CharSpec) (hcs : CrlfSpec cs) (s : List Char) (hs : CrlfSafe s) (off off' : Nat) :
+    (allBlocks ((lexFrom cs off' (crlf s)).length + 1) (lexFrom cs off' (crlf s))).map (·.map tokAbs) =
+    (allBlocks ((lexFrom cs off s).length + 1) (lexFrom cs off s)).map (·.map tokAbs) :=
+  (C17_crlf_blocks cs hcs s hs off off').map_eq _ _ (fun _ _ h => h.map_eq _ _ (fun _ _ ht => crlfTok_tokAbs ht))
+
+/-- The splitter law behind it, for ANY two token streams related token by token by a relation that
+    preserves kinds (e.g. streams that differ in offsets, in the spelling of newlines, in the text
+    of comments or in the amount of whitespace inside whitespace tokens): same blocks. -/
+theorem C17_splitter_kinds_only (R : Tok → Tok → Prop) (hR : ∀ a b, R a b → a.kind = b.kind)
+    (fuel : Nat) (l m : List Tok) (h : LRel R l m) : LRel (LRel R) (allBlocks fuel l) (allBlocks fuel m) :=
+  sim_allBlocks hR fuel h
+
+/-- **CRLF at event level (partial: inputs without component markers).**
+    `EvSim uws e' e` relates two parser events with the same rendered content: same constructor
+    (`Start`/`End` of the same block kind, `Text`, `Metadata`, `Section`, `Error`, `Warning`),
+    texts related by `TextSim` (same number of fragments, soft breaks at the same places, equal
+    fragment texts — hence equal `Text::text()`, `text_trimmed()`, `is_text_empty()`, see
+    `C17_textSim_content`), diagnostics with the same severity, stage, kind and number of labels.
+    Source spans and label positions are not compared (they do shift).
+    Statement: for every character table with `CrlfSpec` and in which CR and LF are Unicode white
+    space (`UwsNL`, what `str::trim` uses), every extension set, both values of the
+    old-style-metadata flag, every input body `s` without backslash whose token stream contains
+    no `@`, `#`, `~` token, lexed at any offsets: running the block parsers over all blocks of the
+    CRLF-converted body produces an event list of the same length as for `s`, related event by
+    event by `EvSim`.  This covers metadata lines (valid or not, `[mode]` keys under MODES), section
+    lines (valid or with trailing junk), `>` text blocks, multi-line text-only steps, and their
+    warnings/errors.  MISSING for the full clause: blocks containing components (`@ # ~`): their
+    parsers (`ingredient`, `cookware`, `timer`, quantities, modifiers) are not yet covered by the
+    relational layer of `Lemmas/SimParser.lean`; and the front-matter split. -/
+theorem C17_crlf_events_partial {α : Type} [Arith α] (cs : CharSpec) (hcs : CrlfSpec cs) (hu : UwsNL cs)
+    (ext : Ext) (oldStyle : Bool) (s : List Char) (hs : CrlfSafe s) (off off' : Nat)
+    (hnm : NoMarker (lexFrom cs off s))
+    (acc' acc : Array (Ev α) × Option String) (he : LRel (EvSim cs.uws) acc'.1.toList acc.1.toList) :
+    LRel (EvSim cs.uws)
+      ((allBlocks ((lexFrom cs off' (crlf s)).length + 1) (lexFrom cs off' (crlf s))).foldl
+        (fun a b => runBlock cs ext oldStyle b a.1 a.2) acc').1.toList
+      ((allBlocks ((lexFrom cs off s).length + 1) (lexFrom cs off s)).foldl
+        (fun a b => runBlock cs ext oldStyle b a.1 a.2) acc).1.toList :=
+  crlf_events cs hcs hu ext oldStyle s hs off off' hnm he
+
+/-- the same for the whole `PullParser` run on inputs in which neither variant has a front matter
+    block (the front-matter split under CRLF conversion is not modelled relationally yet) -/
+theorem C17_crlf_pull_events_partial {α : Type} [Arith α] (cs : CharSpec) (hcs : CrlfSpec cs) (hu : UwsNL cs)
+    (ext : Ext) (s : List Char) (hs : CrlfSafe s) (hnm : NoMarker (lex cs s))
+    (h1 : parseFrontmatter cs s = none) (h2 : parseFrontmatter cs (crlf s) = none) :
+    LRel (EvSim cs.uws) (pullEvents (α := α) cs ext (crlf s)).1.toList (pullEvents (α := α) cs ext s).1.toList :=
+  crlf_pullEvents cs hcs hu ext s hs hnm h1 h2
+
+/-- the token-level side condition of the two theorems above follows from a character-level one:
+    an input without the characters `@`, `#`, `~` has no component-marker token -/
+theorem C17_no_marker_chars (cs : CharSpec) (off : Nat) (s : List Char) (h : '@' ∉ s ∧ '#' ∉ s ∧ '~' ∉ s) :
+    NoMarker (lexFrom cs off s) := lexFrom_noMarker cs off s h
+
+/-- what `TextSim` (inside `EvSim`) guarantees about two texts: everything the analysis reads from a
+    `Text` except its span -/
+theorem C17_textSim_content (cs : CharSpec) (t' t : Text) (h : TextSim cs.uws t' t) :
+    t'.text = t.text ∧ t'.trimmed cs = t.trimmed cs ∧ t'.outerTrimmed cs = t.outerTrimmed cs ∧
+    t'.isTextEmpty cs = t.isTextEmpty cs ∧ t'.frags.length = t.frags.length :=
+  ⟨h.text, h.trimmed, h.outerTrimmed, h.isTextEmpty, LRel.length_eq h⟩
+
+/-- The parser law behind it, for ANY two blocks related token by token by `TokSim` (same kinds,
+    same texts except comments, newline tokens spelled `"\n"` or `"\r\n"` on either side, arbitrary
+    offsets): if the block has no component marker, `BlockParser` (`parse_block` + `finish`)
+    appends related events to related queues. -/
+theorem C17_block_parser_offset_blind_partial {α : Type} [Arith α] (cs : CharSpec) (hu : UwsNL cs)
+    (b' b : List Tok) (hb : LRel TokSim b' b) (hnm : NoMarker b) (ext : Ext) (oldStyle : Bool)
+    (evs' evs : Array (Ev α)) (he : LRel (EvSim cs.uws) evs'.toList evs.toList) (p' p : Option String) :
+    LRel (EvSim cs.uws) (runBlock cs ext oldStyle b' evs' p').1.toList (runBlock cs ext oldStyle b evs p).1.toList :=
+  runBlock_rel hu hb hnm ext oldStyle he p' p
+
 /-! non-vacuity: a character table satisfying `CrlfSpec`, an input satisfying `CrlfSafe` on which
     `crlf` does something, and the excluded shape -/
 
@@ -104,5 +235,26 @@ example : (lex toyCharSpec (crlf ['a', '\n', '-', '-', 'x', '\n'])).map tokAbs =
 example : (lex toyCharSpec (crlf ['a', '\\', '\n'])).map tokAbs ≠ (lex toyCharSpec ['a', '\\', '\n']).map tokAbs := by
   simp [lex, lexFrom_cons, lexOne, crlf, crlfAux, tokAbs, crlfVolatile, singleKind, singleTable,
     toyCharSpec, isAsciiDigit, lexFrom]
+
+/-! non-vacuity for the event-level theorems: the toy table treats CR and LF as white space; an
+    input with a metadata line, a section line, a two-line step and a text block, without front
+    matter before and after conversion -/
+example : UwsNL toyCharSpec := ⟨by decide, by decide⟩
+example : CrlfSafe ">> k: v\n\n= s =\n\nline one\nline two\n\n> note\n".toList := by decide
+example : '@' ∉ ">> k: v\n\n= s =\n\nline one\nline two\n\n> note\n".toList ∧
+    '#' ∉ ">> k: v\n\n= s =\n\nline one\nline two\n\n> note\n".toList ∧
+    '~' ∉ ">> k: v\n\n= s =\n\nline one\nline two\n\n> note\n".toList := by decide
+example : (parseFrontmatter toyCharSpec ">> k: v\n\n= s =\n\nline one\nline two\n\n> note\n".toList).isNone = true := by
+  decide
+example : (parseFrontmatter toyCharSpec (crlf ">> k: v\n\n= s =\n\nline one\nline two\n\n> note\n".toList)).isNone = true := by
+  decide
+
+/-! non-vacuity for the trailing-space laws: "a  \nb" against "a\nb", and a run ending in blanks -/
+example : (buildText 0 [⟨.word, ['a'], 0⟩, ⟨.ws, [' ', ' '], 1⟩, ⟨.newline, ['\n'], 3⟩, ⟨.word, ['b'], 4⟩]).trimmed toyCharSpec
+    = ['a', ' ', 'b'] := by decide
+example : (buildText 0 [⟨.word, ['a'], 0⟩, ⟨.newline, ['\n'], 1⟩, ⟨.word, ['b'], 2⟩]).trimmed toyCharSpec
+    = ['a', ' ', 'b'] := by decide
+example : (buildText 0 [⟨.word, ['a'], 0⟩, ⟨.ws, [' ', '\t'], 1⟩]).trimmed toyCharSpec = ['a'] := by decide
+example : toyCharSpec.uws ' ' = true := by decide
 
 end Cook
